@@ -15,7 +15,12 @@ WORD_VALUES = ['always', 'never', 'auto', 'on', 'off', 'x1', 'y2', 'z3', 'red', 
                'v', 'w', 'q9', 'none', 'full']
 WORD_SEPS = [',', ':', '+', '/']
 DESCRS = ['first', 'second one', 'do it', 'the thing', 'X', 'help text', 'more', 'nothing here']
-CMD_BODIES = ['echo c1', 'echo c2; echo c3', 'printf "%s\\n" p1 p2', 'echo q1']
+# set by checks that do not compare byte columns with character columns (C04)
+NON_ASCII_BODIES = False
+CMD_BODIES = ['echo c1', 'echo c2; echo c3', 'printf "%s\\n" p1 p2', 'echo q1',
+              # bodies must reach every script verbatim: quotes, backslashes, $, backticks, comments, several lines
+              'echo "$1" | sed \'s/x/\\\\/\'', 'line1 "a  b"\n\tline2 `x` $HOME', 'printf "%s\\n" \'it\'"\'"\'s\' # c',
+              'echo ${1}-${2:-none}', 'test -n "$1" && echo yes || echo no']
 NT_NAMES = ['A', 'B', 'C', 'D', 'E', 'F', 'G', 'H', 'OPT', 'VAL', 'SUB', 'ARG']
 UNDEF_NAMES = ['U', 'FILE', 'NAME', '_', 'NUM']
 
@@ -88,6 +93,8 @@ class Gen:
         self.ncmd += 1
         if self.cmd_factory:
             return cmd(self.cmd_factory(self.r, i, in_word))
+        if NON_ASCII_BODIES and self.r.random() < 0.1:
+            return cmd('echo \u00e9 "\u65e5\u672c"')
         return cmd(self.r.choice(CMD_BODIES))
 
     def leaf(self, in_def_for_word=False):
